@@ -88,6 +88,9 @@ func newDBCache(t *testing.T) *dbCache {
 	return c
 }
 
+// isAny is the oracle's own reading of the documented selector ("ANY", case insensitive)
+func isAny(s string) bool { return strings.EqualFold(s, "any") }
+
 func pow16(k int) uint64 { return uint64(1) << (4 * uint(k)) }
 
 // contribution of interface k to the totals
@@ -131,6 +134,16 @@ func (c *dbCache) dbFor(mask int) (string, error) {
 
 // ---- generators
 
+// genMask draws the set of existing interfaces (all 32 subsets are reachable; half of the
+// draws are the union of two subsets, so that larger databases are not rare)
+func genMask(t *rapid.T) int {
+	m := rapid.IntRange(0, 1<<len(alphabet)-1).Draw(t, "existing")
+	if rapid.Bool().Draw(t, "denser") {
+		m |= rapid.IntRange(0, 1<<len(alphabet)-1).Draw(t, "existing2")
+	}
+	return m
+}
+
 type listCase struct {
 	tokens   []string
 	invalid  bool // contains a token ValidateIfaceName rejects
@@ -156,7 +169,7 @@ func genList(t *rapid.T) listCase {
 			name = rapid.SampledFrom(weightedPool).Draw(t, "name")
 		}
 		neg := rapid.IntRange(0, 2).Draw(t, "neg") == 0
-		if types.IsAnySelector(name) && neg {
+		if isAny(name) && neg {
 			if mode == 3 {
 				lc.negAny = true
 			} else {
@@ -339,6 +352,13 @@ func dedupSorted(in []string) []string {
 
 // emptyResult tells whether res reports nothing at all (the alternative to an
 // error that is accepted for an empty selection).
+func ifacesOf(res *results.Result) []string {
+	if res == nil {
+		return nil
+	}
+	return res.Summary.Interfaces
+}
+
 func emptyResult(res *results.Result) bool {
 	return res != nil && len(res.Summary.Interfaces) == 0 && len(res.Rows) == 0 && res.Summary.Totals == (types.Counters{})
 }
@@ -380,7 +400,7 @@ func checkSelected(o outcome, expected []string) (clause, msg string) {
 func TestC16List(t *testing.T) {
 	cache := newDBCache(t)
 	rapid.Check(t, func(t *rapid.T) {
-		mask := rapid.IntRange(0, 1<<len(alphabet)-1).Draw(t, "existing")
+		mask := genMask(t)
 		lc := genList(t)
 		checkList(t, cache, mask, lc)
 	})
@@ -410,6 +430,7 @@ func TestC16ListSmallScope(t *testing.T) {
 		}
 	}
 	rec(nil)
+	evid.Exhaustive(true)
 	evid.Note("small_scope", fmt.Sprintf("all %d (list, database) pairs with lists of length <= %d over %q and databases over {eth0,eth1}", n, maxLen, toks))
 }
 
@@ -420,165 +441,166 @@ type fataler interface {
 // checkList runs one list argument against the database given by mask and
 // applies the oracle.
 func checkList(t fataler, cache *dbCache, mask int, lc listCase) {
-	{
-		arg := strings.Join(lc.tokens, ",")
-		db, err := cache.dbFor(mask)
-		if err != nil {
-			t.Fatalf("harness: %v", err)
-		}
-		existing := existingNames(mask)
-		exists := map[string]bool{}
-		for _, n := range existing {
-			exists[n] = true
-		}
+	arg := strings.Join(lc.tokens, ",")
+	db, err := cache.dbFor(mask)
+	if err != nil {
+		t.Fatalf("harness: %v", err)
+	}
+	existing := existingNames(mask)
+	exists := map[string]bool{}
+	for _, n := range existing {
+		exists[n] = true
+	}
 
-		// reference selection
-		var (
-			hasAny   bool
-			posCount = map[string]int{}
-			negated  = map[string]bool{}
-		)
-		for _, tok := range lc.tokens {
-			if strings.HasPrefix(tok, "!") {
-				negated[tok[1:]] = true
-			} else if types.IsAnySelector(tok) {
-				hasAny = true
-			} else {
-				posCount[tok]++
-			}
+	// reference selection
+	var (
+		hasAny   bool
+		posCount = map[string]int{}
+		negated  = map[string]bool{}
+	)
+	for _, tok := range lc.tokens {
+		if strings.HasPrefix(tok, "!") {
+			negated[tok[1:]] = true
+		} else if isAny(tok) {
+			hasAny = true
+		} else {
+			posCount[tok]++
 		}
-		base := map[string]bool{}
-		if hasAny {
-			for _, n := range existing {
+	}
+	base := map[string]bool{}
+	if hasAny {
+		for _, n := range existing {
+			base[n] = true
+		}
+	} else {
+		for n := range posCount {
+			if exists[n] {
 				base[n] = true
 			}
-		} else {
-			for n := range posCount {
-				if exists[n] {
-					base[n] = true
-				}
-			}
 		}
-		var expected []string
-		negOfSelected := false
-		for n := range base {
-			if negated[n] {
-				negOfSelected = true
-				continue
-			}
-			expected = append(expected, n)
-		}
-		sort.Strings(expected)
-
-		// which names can trigger the open finding: repeated among the positives that end up in the working list
-		var repeated []string
-		repeatedAny := false
-		for n, c := range posCount {
-			if c > 1 {
-				repeatedAny = true
-				if exists[n] && !hasAny {
-					repeated = append(repeated, n)
-				}
-			}
-		}
-		sort.Strings(repeated)
-		repeatedNegated := false
-		for _, n := range repeated {
-			if negated[n] {
-				repeatedNegated = true
-			}
-		}
-
-		classes := []string{"arg:list"}
-		if lc.small {
-			classes = []string{"arg:list-small-scope"}
-		}
-		switch {
-		case lc.invalid:
-			classes = append(classes, "list:invalid-token")
-		case lc.negAny:
-			classes = append(classes, "list:neg-any")
-		case len(expected) == 0:
-			classes = append(classes, "list:empty-selection")
-		default:
-			classes = append(classes, fmt.Sprintf("list:selected=%d", len(expected)))
-		}
-		if hasAny {
-			classes = append(classes, "list:any")
-		}
-		if repeatedAny {
-			classes = append(classes, "list:repeated-name")
-		}
-		if len(repeated) > 0 {
-			classes = append(classes, "list:repeated-existing-positive")
-		}
-		if repeatedNegated {
-			classes = append(classes, "list:repeated-and-negated")
-		}
-		if negOfSelected {
-			classes = append(classes, "list:negation-of-selected")
-		}
-		if len(negated) > 0 && strings.HasPrefix(lc.tokens[0], "!") {
-			classes = append(classes, "list:negation-first")
-		}
-		if mask == 0 {
-			classes = append(classes, "db:empty")
-		}
-		if lc.noRepeat && evid.IsOpen(findingRepeat) {
-			evid.Excluded(findingRepeat)
-			classes = append(classes, "mode:no-repeated-positive")
-		}
-		nt := !lc.invalid && !lc.negAny && (repeatedAny || negOfSelected)
-		canon := fmt.Sprintf("%02d|%s", mask, arg)
-		evid.Case(canon, nt, classes...)
-		if evid.WantSample(nt) {
-			evid.Sample(map[string]any{"existing": existing, "ifaces": arg, "expected": expected}, nt)
-		}
-
-		o := runQuery(db, arg)
-		wit := fmt.Sprintf("existing=%q ifaces=%q", existing, arg)
-
-		// attribution of the open finding: only lists whose working list contains a repeated name
-		known := func(observed string) bool {
-			return len(repeated) > 0 && evid.Known(findingRepeat, wit+" -> "+observed)
-		}
-
-		if o.panicked {
-			if repeatedNegated && strings.Contains(o.panicVal, "slice bounds out of range") &&
-				strings.Contains(o.stack, "parseIfaceListWithCommaSeparatedString") && known("panic: "+o.panicVal) {
-				return
-			}
-			t.Fatalf("%s", evid.Sig("C16:no-crash", "%s: panic: %s\n%s", wit, o.panicVal, o.stack))
-		}
-		if lc.invalid {
-			if o.err == nil {
-				t.Fatalf("%s", evid.Sig("C16:invalid-name-error", "%s: a list with an invalid interface name was accepted (interfaces %q)", wit, o.res.Summary.Interfaces))
-			}
-			return
-		}
-		if lc.negAny {
-			return // no crash is all that is asserted
-		}
-		if len(expected) == 0 {
-			if o.err != nil || emptyResult(o.res) {
-				return
-			}
-			// the finding keeps a negated repeated name alive
-			if repeatedNegated && explainedByRepeat(o, expected, repeated, negated) && known(fmt.Sprintf("interfaces %q", o.res.Summary.Interfaces)) {
-				return
-			}
-			t.Fatalf("%s", evid.Sig("C16:empty-selection", "%s: empty selection expected (error or empty result), got interfaces %q totals %+v",
-				wit, o.res.Summary.Interfaces, o.res.Summary.Totals))
-		}
-		clause, msg := checkSelected(o, expected)
-		if clause == "" {
-			return
-		}
-		if o.err == nil && o.res != nil && explainedByRepeat(o, expected, repeated, negated) && known(fmt.Sprintf("interfaces %q", o.res.Summary.Interfaces)) {
-			return
-		}
-		t.Fatalf("%s", evid.Sig(clause, "%s: %s", wit, msg))
 	}
+	var expected []string
+	negOfSelected := false
+	for n := range base {
+		if negated[n] {
+			negOfSelected = true
+			continue
+		}
+		expected = append(expected, n)
+	}
+	sort.Strings(expected)
+
+	// which names can trigger the open finding: repeated among the positives that end up in the working list
+	var repeated []string
+	repeatedAny := false
+	for n, c := range posCount {
+		if c > 1 {
+			repeatedAny = true
+			if exists[n] && !hasAny {
+				repeated = append(repeated, n)
+			}
+		}
+	}
+	sort.Strings(repeated)
+	repeatedNegated := false
+	for _, n := range repeated {
+		if negated[n] {
+			repeatedNegated = true
+		}
+	}
+
+	classes := []string{"arg:list"}
+	if lc.small {
+		classes = []string{"arg:list-small-scope"}
+	}
+	switch {
+	case lc.invalid:
+		classes = append(classes, "list:invalid-token")
+	case lc.negAny:
+		classes = append(classes, "list:neg-any")
+	case len(expected) == 0:
+		classes = append(classes, "list:empty-selection")
+	default:
+		classes = append(classes, fmt.Sprintf("list:selected=%d", len(expected)))
+	}
+	if hasAny {
+		classes = append(classes, "list:any")
+	}
+	if repeatedAny {
+		classes = append(classes, "list:repeated-name")
+	}
+	if len(repeated) > 0 {
+		classes = append(classes, "list:repeated-existing-positive")
+	}
+	if repeatedNegated {
+		classes = append(classes, "list:repeated-and-negated")
+	}
+	if negOfSelected {
+		classes = append(classes, "list:negation-of-selected")
+	}
+	if len(negated) > 0 && strings.HasPrefix(lc.tokens[0], "!") {
+		classes = append(classes, "list:negation-first")
+	}
+	if mask == 0 {
+		classes = append(classes, "db:empty")
+	}
+	if lc.noRepeat && evid.IsOpen(findingRepeat) {
+		evid.Excluded(findingRepeat)
+		classes = append(classes, "mode:no-repeated-positive")
+	}
+	nt := !lc.invalid && !lc.negAny && (repeatedAny || negOfSelected)
+	canon := fmt.Sprintf("%02d|%s", mask, arg)
+	evid.Case(canon, nt, classes...)
+	if evid.WantSample(nt) {
+		evid.Sample(map[string]any{"existing": existing, "ifaces": arg, "expected": expected}, nt)
+	}
+
+	o := runQuery(db, arg)
+	wit := fmt.Sprintf("existing=%q ifaces=%q", existing, arg)
+
+	// attribution of the open finding: only lists whose working list contains a repeated name
+	known := func(observed string) bool {
+		return len(repeated) > 0 && evid.Known(findingRepeat, wit+" -> "+observed)
+	}
+
+	if o.panicked {
+		if repeatedNegated && strings.Contains(o.panicVal, "slice bounds out of range") &&
+			strings.Contains(o.stack, "parseIfaceListWithCommaSeparatedString") && known("panic: "+o.panicVal) {
+			return
+		}
+		t.Fatalf("%s", evid.Sig("C16:no-crash", "%s: panic: %s\n%s", wit, o.panicVal, o.stack))
+	}
+	if lc.invalid {
+		if o.err == nil {
+			t.Fatalf("%s", evid.Sig("C16:invalid-name-error", "%s: a list with an invalid interface name was accepted (interfaces %q)", wit, ifacesOf(o.res)))
+		}
+		return
+	}
+	if lc.negAny {
+		return // no crash is all that is asserted
+	}
+	if len(expected) == 0 {
+		if o.err != nil || emptyResult(o.res) {
+			return
+		}
+		if o.res == nil {
+			t.Fatalf("%s", evid.Sig("C16:empty-selection", "%s: neither a result nor an error", wit))
+		}
+		// the finding keeps a negated repeated name alive
+		if repeatedNegated && explainedByRepeat(o, expected, repeated, negated) && known(fmt.Sprintf("interfaces %q", o.res.Summary.Interfaces)) {
+			return
+		}
+		t.Fatalf("%s", evid.Sig("C16:empty-selection", "%s: empty selection expected (error or empty result), got interfaces %q totals %+v",
+			wit, o.res.Summary.Interfaces, o.res.Summary.Totals))
+	}
+	clause, msg := checkSelected(o, expected)
+	if clause == "" {
+		return
+	}
+	if o.err == nil && o.res != nil && explainedByRepeat(o, expected, repeated, negated) && known(fmt.Sprintf("interfaces %q", o.res.Summary.Interfaces)) {
+		return
+	}
+	t.Fatalf("%s", evid.Sig(clause, "%s: %s", wit, msg))
 }
 
 // explainedByRepeat decides whether a wrong but non-crashing result has the
@@ -625,9 +647,9 @@ func explainedByRepeat(o outcome, expected, repeated []string, negated map[strin
 func TestC16Regexp(t *testing.T) {
 	cache := newDBCache(t)
 	rapid.Check(t, func(t *rapid.T) {
-		mask := rapid.IntRange(0, 1<<len(alphabet)-1).Draw(t, "existing")
+		mask := genMask(t)
 		arg := genRegexpArg(t)
-		if rapid.IntRange(0, 19).Draw(t, "negprefix") == 0 {
+		if rapid.IntRange(0, 19).Draw(t, "negprefix") == 7 {
 			arg = "!" + arg // not a regexp argument any more: an invalid interface name
 		}
 		db, err := cache.dbFor(mask)
@@ -637,7 +659,7 @@ func TestC16Regexp(t *testing.T) {
 		existing := existingNames(mask)
 		wit := fmt.Sprintf("existing=%q ifaces=%q", existing, arg)
 
-		isRe := types.IsIfaceArgumentRegExp(arg) && strings.HasPrefix(arg, "/") && strings.HasSuffix(arg, "/") && len(arg) > 2
+		isRe := strings.HasPrefix(arg, "/") && strings.HasSuffix(arg, "/") && len(arg) > 2 // "wrapped into forward slashes"
 		var (
 			expected  []string
 			innerErr  error
@@ -695,7 +717,7 @@ func TestC16Regexp(t *testing.T) {
 		}
 		if mustError {
 			if o.err == nil {
-				t.Fatalf("%s", evid.Sig("C16:invalid-regexp-error", "%s: invalid argument accepted (inner compile error: %v), interfaces %q", wit, innerErr, o.res.Summary.Interfaces))
+				t.Fatalf("%s", evid.Sig("C16:invalid-regexp-error", "%s: invalid argument accepted (inner compile error: %v), interfaces %q", wit, innerErr, ifacesOf(o.res)))
 			}
 			return
 		}
@@ -705,6 +727,9 @@ func TestC16Regexp(t *testing.T) {
 		if len(expected) == 0 {
 			if o.err != nil || emptyResult(o.res) {
 				return
+			}
+			if o.res == nil {
+				t.Fatalf("%s", evid.Sig("C16:regexp-selection", "%s: neither a result nor an error", wit))
 			}
 			t.Fatalf("%s", evid.Sig("C16:regexp-selection", "%s: no interface matches, expected an error or an empty result, got interfaces %q", wit, o.res.Summary.Interfaces))
 		}
